@@ -409,6 +409,14 @@ def formatBytes (F : Fmt) (D : Dif) (f : Flags) (e : Entry) (path src : Bytes) (
     | .langErr msg => { errLine := some (msg ++ langErrSuffix f o fromEC), fail := true }
     | .ok res => outcome f.list f.write f.diff path src res (D path src res) (e.kind == .reg)
 
+/-- What the shebang sniff `io.ReadAtLeast(f, copyBuf[:32], 9)` of formatPath reports for a regular
+    file: `io.EOF` (nothing to read), `io.ErrUnexpectedEOF` (1..8 bytes), or success (9..32 bytes). -/
+inductive Sniff | eof | short | window
+  deriving DecidableEq, Repr
+
+def sniffOf (src : Bytes) : Sniff :=
+  if src = [] then .eof else if src.length < 9 then .short else .window
+
 /-- `formatPath(path, checkShebang)`.  The Go code reads the 32-byte head only when it needs the
     shebang (`checkShebang || shebangForAuto`) and then sets the language from it; that is
     `fileLang` above (the `-ln` value, else the filename, else the shebang of the head). -/
